@@ -8,7 +8,23 @@ import sys
 HERE = os.path.dirname(os.path.dirname(os.path.abspath(__file__)))
 
 # id -> (category, technique, level text, level note, design ref)
+PX_NOTE = "Trusted base: the explorer's structural state dump (mc/hist.canon), the step menus and row alphabets (stated in the evidence), the comparison relation EQ (mc/compare.py) and, only for disagreements, the reference interpreter R (mc/refmodel.py). Nothing beyond the stated alphabets and depth is claimed."
+
 CHECKS = {
+    "C01": (
+        "model_checking",
+        "explicit-state BFS over the real pipeline builder (canonical state hashing) x exhaustive small inputs; Pandas-vs-SQLite differential oracle, reference interpreter arbitrates disagreements",
+        "Every pipeline reachable in <= 2 builder calls over a ~120-entry step menu (thorough: plus <= 3 calls over a SQL-translation slice) is executed on every multiset of <= 2 (thorough 3) rows of a collision-forcing row alphabet on both the Pandas executor and generated SQL on SQLite; results must be EQ, or differ only by a documented destination convention, or match the exact as-is model of a listed finding.",
+        PX_NOTE,
+        "DESIGN.md 3/C01",
+    ),
+    "C03": (
+        "model_checking",
+        "explicit-state BFS over the real pipeline builder x exhaustive small inputs as Polars eager and lazy frames; Polars-vs-Pandas differential oracle (raise accepted)",
+        "Same state space as C01; each (pipeline, input) is run on Pandas and on Polars (eager and lazy). A Polars exception is accepted and counted; a returned table must equal the Pandas table as a multiset (Pandas-side listed findings excused through the exact as-is model). Evidence reports, per step kind, how many Polars executions returned.",
+        PX_NOTE,
+        "DESIGN.md 3/C03",
+    ),
     "C24": (
         "model_checking",
         "explicit-state search: complete reachable state graph of the real OrderedSet, lock-step dict/set reference model",
